@@ -22,10 +22,13 @@ func (consumer *Consumer) Loop() {
 		if consumer.lifecycle.IsKilled() {
 			return
 		}
+		// Read the step before the queues: StepClose is set after all producers
+		// have finished, so queues seen empty afterwards stay empty.
+		isClosed := consumer.lifecycle.Step() == StepClose
+		verifhook.Yield("fsloop.consumer.gap")
 		if len(consumer.loopData.chans.dirChan) == 0 &&
 			len(consumer.loopData.chans.fileChan) == 0 {
-			verifhook.Yield("fsloop.consumer.gap")
-			if consumer.lifecycle.Step() == StepClose {
+			if isClosed {
 				return
 			}
 			runtime.Gosched()
